@@ -8,15 +8,17 @@ SUBST = {
 }
 CHECK = {
     "id": "C37",
-    "packages": ["./internal/codec", "./supervisor"],
-    "harness": ["internal/codec/zz_verif_c37.go", "supervisor/zz_verif_c37.go"],
+    "packages": ["./internal/codec", "./supervisor", "./actor"],
+    "harness": ["internal/codec/zz_verif_c37.go", "supervisor/zz_verif_c37.go", "actor/zz_verif_c37.go"],
     "entries": [
-        {"fn": P + "vC37_supervisor"},
+        {"fn": P + "vC37_supervisor", "cases_quick": {"types": [3], "shape": list(range(2 * (1 + 3 + 9)))}, "cases_thorough": {"types": [5], "shape": list(range(2 * (1 + 5 + 25)))},
+         "cover_optional": ("any-error", "two-typed-directives")},
         {"fn": P + "vC37_supervisor_nil"},
         {"fn": P + "vC37_passivation"},
         {"fn": P + "vC37_reentrancy"},
+        {"fn": M + "actor.vC37_relocation", "opts": {"stub": [M + "internal/types.Name"]}},
     ],
-    "opts": {"unwind": 16, "substitute": SUBST, "birth_guard_stores": True, "map_range": "per_entry", "map_dedup": True},
+    "opts": {"unwind": 16, "substitute": SUBST, "birth_guard_stores": True, "map_range": "per_entry", "map_dedup": True, "feas_from_iter": 100},
     "explanation": "",
     "bounds": {},
 }
